@@ -197,6 +197,8 @@ def run(ctx):
     # time types (outside the Lean universe): same instant back, decoded value accepted, canonical re-encoding
     from .. import timefam as _timefam
     _timefam.run(ctx, 'C01', ctx.rng, ctx.n(25, 300), _timefam.BIN)
+    from .. import ctxfam as _ctxfam
+    _ctxfam.run(ctx, 'C01', ctx.rng, ctx.n(60, 800), impl, ['ber', 'der', 'per', 'uper', 'oer'])
 
 
 WITNESSES = [
